@@ -12,7 +12,11 @@
                   every pair (order of the first, order of the second "range zonedPartitions");
                   "~" marks a topic whose zone orders were not enumerated (too many zones): only the
                   insertion-order result is given.
-     MODELINCONSISTENT when rack_assign / rack_assign_canonical / rack_assign_topic disagree. *)
+     lrange / lrr / lrack : the leader path; <partitions> is the CLUSTER.
+                  "<as range / rr / rack, computed by leader_range / leader_rr / on leader_partitions>
+                  req=<extract_topics, hex joined by ',', or '-'>"
+     MODELINCONSISTENT when rack_assign / rack_assign_canonical / rack_assign_topic disagree, or
+     leader_partitions / leader_rack disagree with read_partitions / rack_assign. *)
 open C14_model
 open C14_io
 
@@ -123,8 +127,32 @@ let eval_rack (ms : member list) (ps : partition list) : string =
   else if per_topic = [] then "-"
   else String.concat ";" (List.map snd (List.sort (fun (a, _) (b, _) -> compare a b) per_topic))
 
+let req_of (ms : member list) : string =
+  match extract_topics ms with
+  | [] -> "-"
+  | l -> String.concat "," (List.map hex_of_bytes l)
+
+let eval_lrack (ms : member list) (cluster : partition list) : string =
+  let lp = leader_partitions ms cluster in
+  let pbt = partitions_by_topic lp in
+  let zo t = zones_of (aget t pbt) in
+  if lp <> read_partitions cluster (extract_topics ms)
+  || leader_rack zo zo ms cluster <> rack_assign zo zo ms lp
+  || leader_rack zo zo ms cluster <> rack_assign_canonical ms lp
+  then "MODELINCONSISTENT"
+  else eval_rack ms lp
+
 let eval (op : string) (a : string list) : string =
   match op, a with
+  | "lrange", [m; p] ->
+    let ms = parse_members m in
+    canon_triples (leader_range ms (parse_partitions p)) ^ " req=" ^ req_of ms
+  | "lrr", [m; p] ->
+    let ms = parse_members m in
+    canon_triples (leader_rr ms (parse_partitions p)) ^ " req=" ^ req_of ms
+  | "lrack", [m; p] ->
+    let ms = parse_members m in
+    eval_lrack ms (parse_partitions p) ^ " req=" ^ req_of ms
   | "range", [m; p] -> canon_triples (range_assign (parse_members m) (parse_partitions p))
   | "rr", [m; p] -> canon_triples (rr_assign (parse_members m) (parse_partitions p))
   | "rack", [m; p] -> eval_rack (parse_members m) (parse_partitions p)
